@@ -17,6 +17,7 @@ class Emitter:
         self.linemap = {}     # gen line (1-based) -> (file, line)
         self.obls = []        # obligations
         self.fn_ranges = []   # (start, end, fn name, src file, src line)
+        self.vacuity = []     # vacuity twins (must fail)
 
     @property
     def lineno(self):
@@ -373,6 +374,7 @@ def build_unit(unit, outdir):
     open(out_rs, 'w').write('\n'.join(em.lines) + '\n')
     meta['obligations'] = em.obls
     meta['fn_ranges'] = em.fn_ranges
+    meta['vacuity'] = em.vacuity
     meta['linemap'] = {str(k): v for k, v in em.linemap.items()}
     json.dump(meta, open(os.path.join(outdir, unit['name'] + '.map.json'), 'w'), indent=1)
     return out_rs, meta
@@ -493,3 +495,25 @@ def emit_fn(em, unit, it, toks, fspec, path, src_text, rw):
                     break
             if ob.get('gen_start') is None:
                 raise ExtractError('could not place clause %s' % ob['name'])
+    # ---- vacuity twin: same signature, same requires, same body, `ensures false`; it MUST fail.
+    if fspec and not it.get('no_vacuity_twin'):
+        vstart = em.lineno
+        twin_head = re.sub(r'\bfn\s+' + re.escape(name) + r'\b', 'fn __vac_' + name, head_txt, count=1)
+        em.emit(twin_head)
+        if rt.startswith('->'):
+            em.lines[-1] += ' -> (%s: %s)' % (retname, rt[2:].strip())
+        if where:
+            em.emit('    ' + where)
+        if fspec.requires:
+            em.emit('    requires')
+            for (label, tags, txt) in fspec.requires:
+                em.emit('        ' + ' '.join(x.strip() for x in txt.rstrip().rstrip(',').split('\n')) + ',')
+        em.emit('    ensures false,')
+        if fspec.opts.get('decreases'):
+            em.emit('    decreases ' + fspec.opts['decreases'])
+        em.emit('{')
+        for ln in fspec.body_start:
+            em.emit(ln)
+        em.emit(text_of(body))
+        em.emit('}')
+        em.vacuity.append({'fn': lname, 'twin': '__vac_' + name, 'gen_start': vstart, 'gen_end': em.lineno - 1})
